@@ -239,7 +239,7 @@ def disk_tree(rng, max_entries=30, max_depth=5, types=("dir", "file", "symlink",
         if len(p) > 3000:
             continue
         e = {"p": hx(p), "uid": rng.choice([0, 0, 1000, 65534]), "gid": rng.choice([0, 0, 1000, 65534]),
-             "mt": rng.choice(MTIMES[:4] + [1234567890_987654321, 0])}      # (0 = the epoch itself, a valid time stamp)
+             "mt": rng.choice(MTIMES[:4] * 2 + [1234567890_987654321, 0, 0, -1, -315619200_000000000])}      # (the epoch itself and times before it are valid time stamps)
         if d:
             e["t"] = "dir"
             e["mode"] = rng.choice([0o755, 0o700, 0o1777, 0o2755, 0o750, 0o644, 0o600])
@@ -292,6 +292,20 @@ def disk_tree(rng, max_entries=30, max_depth=5, types=("dir", "file", "symlink",
             if xs:
                 e["x"] = sorted(xs)
         out.append(e)
+    if "hardlink" in types and not deep and rng.random() < 0.06:
+        # sibling directories of which one name is the other plus a byte below '/': walk order and plain string order differ there
+        # ("pd/y" before "pd.d/w"), and a hard link from the second into the first crosses that boundary
+        have = {e["p"] for e in out}
+        D = rng.choice([b"pd", b"a", b"q"])
+        D2 = D + rng.choice([b".", b"-", b"+", b" ", b",", b"!"]) + rng.choice([b"d", b"", b"1"])
+        if not any(h == hx(D) or h.startswith(hx(D) + "2f") or h == hx(D2) or h.startswith(hx(D2) + "2f") for h in have):
+            mk = lambda p_, t, **kw: dict({"p": hx(p_), "t": t, "uid": 0, "gid": 0, "mt": MTIMES[0], "mode": 0o755 if t == "dir" else 0o644}, **kw)
+            out += [mk(D, "dir"), mk(D + b"/y", "file", size=rng.choice([1, 100, 40000])), mk(D2, "dir"),
+                    mk(D2 + b"/w", "file", size=rng.choice([0, 5])), {"p": hx(D2 + b"/z"), "t": "hardlink", "ln": hx(D + b"/y")}]
+            if rng.random() < 0.5:
+                out.append(mk(D + b"/x", "file", size=3))
+                out.append({"p": hx(D2 + b"/zz"), "t": "hardlink", "ln": hx(D + b"/x")})
+            out.sort(key=lambda e: pathkey(bytes.fromhex(e["p"])))
     return out
 
 
@@ -308,7 +322,12 @@ def mutate_disk_tree(rng, tree, n_edits=None):
         op = rng.randrange(9)
         p = e["p"]
         if op == 0 and e["t"] != "hardlink":
-            e["mt"] = rng.choice(MTIMES[:4])
+            if rng.random() < 0.5:
+                e["mt"] = rng.choice(MTIMES[:4])
+            else:
+                # touched again within the same second (one of the two time stamps may be a whole second)
+                sec = (e.get("mt", MTIMES[0]) // 10**9) * 10**9
+                e["mt"] = sec + rng.choice([x for x in (0, 1, 500000000, 999999999) if sec + x != e.get("mt")])
         elif op == 1 and e["t"] not in ("hardlink", "symlink"):
             e["mode"] = rng.choice([0o755, 0o644, 0o700, 0o4711, 0o1777 if e["t"] == "dir" else 0o600])
         elif op == 2 and e["t"] != "hardlink":
